@@ -203,7 +203,7 @@ def build(n: int, cross: list[list[int]], layout: str = "flat", offset: int = 0)
 
     def path(f, name, ext):
         dot = "." if ext else ""
-        if layout == "nested":      # one directory per file, below a package directory (Collect.tla)
+        if layout == "nested":      # one directory per file, below a package directory (Walker.tla)
             return f"pkg/m{f:02d}/mod{dot}{ext}"
         return f"m{f:02d}/mod{dot}{ext}" if layout == "samename" else f"f{f:02d}_{name}{dot}{ext}"
 
